@@ -423,8 +423,8 @@ def rule_validate(program, ctx, prop=P, rid="C01.validate"):
     for c in walk_no_nested(mv):
         if isinstance(c, ast.Call) and isinstance(c.func, ast.Attribute) and c.func.attr == "append" and c.args and isinstance(c.args[0], ast.Tuple):
             first = c.args[0].elts[0]
-            guard = next((a for a in ancestors(c) if isinstance(a, ast.If)), None)
-            gt = ast.unparse(guard.test) if guard is not None else ""
+            from ..lib import guard_atoms
+            gt = " and ".join(ast.unparse(e) for e, pol in guard_atoms(c, stop=mv) if pol)
             if isinstance(first, ast.Subscript) and isinstance(first.slice, ast.Constant) and first.slice.value == 1 and re.search(r"len\(\w+\) == 2", gt) and "startswith('#')" in gt:
                 names_ok = True
                 ctx.ok(rid, c, "tag name = k[1] of a two-character '#x' key")
